@@ -164,6 +164,12 @@ impl Iterator for NeighborsIter {
                 continue;
             }
 
+            // A node tombstoned in the same run takes the run's own edges with it (nothing
+            // can attach an edge to a node after it was deleted in that transaction).
+            if self.pending_tombstoned_nodes.contains(&edge.dst) {
+                continue;
+            }
+
             return Some(edge);
         }
     }
@@ -327,6 +333,10 @@ impl Iterator for IncomingNeighborsIter {
             }
 
             if edge_blocked_incoming(edge, &self.blocked_nodes, &self.blocked_edges) {
+                continue;
+            }
+
+            if self.pending_tombstoned_nodes.contains(&edge.src) {
                 continue;
             }
 
